@@ -23,6 +23,9 @@ structure Call (σ ε : Type) where
   early : Bool
   check : σ → Option ε
   apply : σ → Int → σ
+  /-- `false`: the change function does not read the clock at all (`apply` ignores its instant): the
+  call goes from its checks straight to the lock -/
+  timed : Bool := true
 
 inductive Phase (σ : Type) where
   | start                          -- nothing read yet
@@ -46,7 +49,7 @@ def callStep (store : σ) (now : Int) (c : Call σ ε) : Phase σ → σ × Phas
     -- the change function: checks first, then the interceptor reads the clock
     match c.check o with
     | some e => (store, .start, some (.err e))
-    | none => (store, .both o now, none)
+    | none => if c.timed then (store, .both o now, none) else (store, .ready o now, none)
   | .haveT t => (store, .both store t, none)
   | .both o t =>
     if c.early then
